@@ -246,11 +246,11 @@ def run_fixed_focus(case, seed, R):
     X = (Xo - s_units[0])[None, :]
     Y = (Yo - s_units[1])[:, None]
     amp = dxp * dxo / (wvl * efl)
-    extent = max(np.max(np.abs(X)) * n1, np.max(np.abs(Y)) * n0) * dxp / (wvl * efl) + 2.0
-    tol = tol_for(n0, n1, amp, extent)
-    cell = f'{sq(n0, n1)}:{shift_class(sh)}'
+    extent = max(np.max(np.abs(X)) * n1, np.max(np.abs(Y)) * n0) * dxp / (wvl * efl) + 2.0 + case.get('kmax', 0)
+    tol = tol_for(n0, n1, amp, extent) * case.get('tolx', 1)
+    cell = f'{sq(n0, n1)}:{shift_class(sh)}' + case.get('tag', '')
     samples_arg = so if so[0] != so[1] else so[0]
-    for ti, (kx, ky) in enumerate(TILTS):
+    for ti, (kx, ky) in enumerate(case.get('tilts', TILTS)):
         p = tilted_pupil(n0, n1, kx, ky)
         want = focal_modulus(n0, n1, dxp, wvl, efl, kx, ky, X, Y, dxo)
         for method in ('mdft', 'czt'):
@@ -307,7 +307,7 @@ def run_fixed_focus(case, seed, R):
 def run_fft_focus(case, seed, R):
     n, Q = case['n'], case['Q']
     wvl, efl, dxp = case['units']
-    cell = f'{par(n)}:Q={"int" if float(Q).is_integer() else "frac"}' + (':threshold' if case.get('large') else '')
+    cell = f'{par(n)}:Q={"int" if float(Q).is_integer() else "frac"}' + (':threshold' if case.get('large') else '') + case.get('tag', '')
     sig = f'Wavefront.focus:{cell}'
     for kx, ky in (TILTS_LARGE if case.get('large') else TILTS):
         p = tilted_pupil(n, n, kx, ky)
@@ -599,7 +599,7 @@ def run_unfocus_fft(case, seed, R):
     n, Q = case['n'], case['Q']
     wvl, efl, dxp = case['units']
     dxf = wvl * efl / (n * dxp)               # a focal grid that belongs to the pupil alphabet
-    cell = f'{par(n)}:Q={"int" if float(Q).is_integer() else "frac"}' + (':threshold' if case.get('large') else '')
+    cell = f'{par(n)}:Q={"int" if float(Q).is_integer() else "frac"}' + (':threshold' if case.get('large') else '') + case.get('tag', '')
     pos = [(n // 2, n // 2), (0, 0), (n - 1, n // 3), (n // 3, n - 1)] if case.get('large') else positions(n, n, case['every'])
     for pi_, (i, j) in enumerate(pos):
         x0, y0 = (j - n // 2) * dxf, (i - n // 2) * dxf
@@ -652,13 +652,13 @@ def run_fixed_unfocus(case, seed, R):
     amp = dxf * dxo / (wvl * efl)              # (1/sqrt(N Q))^2 with N Q = lam f/(dx_f dx_p) per axis
     xp = ax(so[1]) * dxo - s_units[0]
     yp = ax(so[0]) * dxo - s_units[1]
-    cell = f'{sq(n0, n1)}:{shift_class(sh)}'
+    cell = f'{sq(n0, n1)}:{shift_class(sh)}' + case.get('tag', '')
     samples_arg = so if so[0] != so[1] else so[0]
-    for pi_, (i, j) in enumerate(positions(n0, n1, case['every'])):
+    for pi_, (i, j) in enumerate(case['pos'] if 'pos' in case else positions(n0, n1, case['every'])):
         x0, y0 = (j - n1 // 2) * dxf, (i - n0 // 2) * dxf
         arg = 2 * np.pi * (xp[None, :] * x0 + yp[:, None] * y0) / (wvl * efl)
         for dt in pick(DT_ORDER, case.get('all_dtypes'), case.get('rot', 0), pi_):
-            tf = tol_factor(dt)
+            tf = tol_factor(dt) * case.get('tolx', 1)
             tol = 1e3 * EPS * amp * (2 + float(np.max(np.abs(arg)))) * tf
             d = np.zeros((n0, n1), dtype=DTYPES[dt])
             d[i, j] = 1
@@ -695,6 +695,71 @@ def run_fixed_unfocus(case, seed, R):
 
 
 # ---------------------------------------------------------------------------------------------
+# requested spacings NEXT TO a special one (a whole / half-whole Q, the FFT's own spacing): "at any requested dx"
+
+# relative distance of the requested Q from the special value: inside every tolerance a library plausibly uses to call two
+# spacings equal (0.1 % of Wavefront arithmetic, np.isclose 1e-5 / 1e-8, math.isclose 1e-9) and one well outside (3 %);
+# each is >= 1e3 x the rounding of the divisions that produce Q, and moves light by >= 30 x the tolerance of the closed form
+NEAR_DELTAS = [3e-2, 7e-4, 6e-6, 6e-8, 6e-10]
+NEAR_Q = [1, 2, 3, 4, 0.5, 1.5, 2.5, 1 / 3]
+NEAR_TILTS = [[0, 0], [2, 0], [0, -2], [1.25, -0.5], [-1, 2]]
+NEAR_TILTS_LARGE = [[0, 0], [18, 0], [-7.5, 11.25], [0, -25]]
+
+
+def near_rels(Q0, deltas):
+    """requested spacing relative to the native one, 1/Q, for Q = Q0 exactly (first: it fills whatever the shared executors
+    cache for the special value) and then Q0 (1 +- delta), closest first"""
+    out = [[0.0, 1.0 / Q0]]
+    for d in sorted(deltas):
+        out += [[d, 1.0 / (Q0 * (1 + d))], [-d, 1.0 / (Q0 * (1 - d))]]
+    return out
+
+
+def near_positions(n0, n1):
+    c0, c1 = n0 // 2, n1 // 2
+    out = [(c0, c1), (0, 0), (n0 - 1, n1 // 3), (n0 // 3, n1 - 1), (c0, n1 - 1), (0, c1)]
+    seen, res = set(), []
+    for q in out:
+        if q not in seen:
+            seen.add(q)
+            res.append(q)
+    return res
+
+
+def run_near(case, seed, R):
+    """one case = one special Q0 and, IN ONE PROCESS STATE (no executor reset in between), the requested spacings for Q0 and
+    Q0 (1 +- delta): every one is judged by the same closed form at ITS OWN requested (= reported) coordinates"""
+    n0, n1 = case['n']
+    for d, rel in near_rels(case['Q0'], case['deltas']):
+        sub = dict(case, dxrel=rel, tag='' if d == 0 else ':near-special-Q')
+        if case['dir'] == 'focus':
+            run_fixed_focus(sub, seed, R)
+        else:
+            sub['pos'] = near_positions(n0, n1)[:6 if max(n0, n1) <= 9 else 4]
+            run_fixed_unfocus(sub, seed, R)
+
+
+def near_cases(quick):
+    small = [[4, 4], [5, 5], [3, 6], [6, 3], [4, 6], [7, 5]] + ([] if quick else [[2, 2], [9, 9], [8, 3], [5, 8]])
+    large = [[64, 64], [48, 64]] + ([] if quick else [[32, 32], [64, 48], [100, 100]])
+    combos = [[u, form, sh] for u in (UNITS[0], UNITS[7], UNITS[3]) for form in ('N+1', '2N+1') for sh in ([0, 0], [-1, 2.5])]
+    cases, ci = [], 0
+    for direction in ('focus', 'unfocus'):
+        for s in small:
+            for Q0 in NEAR_Q:
+                ci += 1
+                for u, form, sh in (combos if not quick else [combos[(5 * ci) % 12]]):
+                    cases.append({'dir': direction, 'n': s, 'Q0': Q0, 'deltas': NEAR_DELTAS, 'units': u, 'samp': form, 'shift': sh,
+                                  'tilts': NEAR_TILTS, 'kmax': 2, 'every': False, 'rot': ci % 20, 'all_dtypes': False})
+        for s in large:
+            for Q0 in ([1, 2, 3, 2.5] if quick else NEAR_Q):
+                ci += 1
+                cases.append({'dir': direction, 'n': s, 'Q0': Q0, 'deltas': NEAR_DELTAS, 'units': UNITS[ci % 8], 'samp': '2N+1', 'shift': [0, 0],
+                              'tilts': NEAR_TILTS_LARGE, 'kmax': 25, 'tolx': 1 if direction == 'focus' else 20, 'every': False, 'rot': ci % 20, 'all_dtypes': False})
+    return cases
+
+
+# ---------------------------------------------------------------------------------------------
 # (d): scalar conversions
 
 def run_conversions(case, seed, R):
@@ -720,7 +785,7 @@ def run_conversions(case, seed, R):
             R.expect(abs(back - dxfocal) <= r * dxfocal, 'sample-conversion:roundtrip', f'pupil_sample_to_psf_sample(psf_sample_to_pupil_sample({dxfocal})) = {back}')
     # Q_for_sampling
     D = n * dxp
-    for rel in DXRELS + [1 / 3]:
+    for rel in DXRELS + [1 / 3] + [1.0 / (Q0 * (1 + d)) for Q0 in (1, 2, 3) for d in (7e-4, -7e-4, 6e-8, -6e-8)]:
         dxo = want_f * rel
         q = scalar(R, R.call(propagation.Q_for_sampling, D, efl, wvl, dxo), 'Q_for_sampling')
         if q is not None:
@@ -919,6 +984,11 @@ def plan(tier, seed):
     NL = [11, 12, 13, 16, 17, 19, 23, 26, 29, 31, 37, 64, 65, 67] + ([] if quick else [43, 47, 53, 97, 101]) + [127, 130]
     big_cases = [{'n': n, 'Q': Q, 'units': u, 'large': True, 'every': False, 'rot': (n + int(2 * Q)) % 4, 'all_dtypes': not quick} for n in NL for Q in (1, 2, 1.5) for u in (UNITS[0], UNITS[7])]
     cv_cases = [{'n': n, 'units': u} for n in range(1, 28) for u in UNITS]
+    # Q handed to the FFT route next to a whole number (sibling of the requested-dx alphabet of near_special_dx)
+    QN = [1.0007, 1.9994, 2.000006, 3.00000006, 1.5004] + ([] if quick else [0.9993, 2.0007, 2.99999994, 1.00000000006])
+    fq_cases = [{'n': n, 'Q': Q, 'units': u, 'tag': ':near-whole-Q'} for n in (NS if not quick else [4, 5, 8, 9]) for Q in QN for u in (UNITS[1], UNITS[6])]
+    uq_cases = [dict(c, every=True, rot=(c['n'] + i) % 4, all_dtypes=not quick) for i, c in enumerate(fq_cases)]
+    nr_cases = near_cases(quick)
     thin = ' (quick: full product on shapes <= 3, every 7th cell of the product elsewhere)' if quick else ''
     return [
         ScopeUnit('conversions', cv_cases, run_conversions,
@@ -947,6 +1017,17 @@ def plan(tier, seed):
                   f'focal shapes [2..9]^2 x units x requested pupil dx in {DXRELS} x dx_p x samples_out x shift{thin}; inside: point-source positions (every position in the thorough tier; quick: '
                   'the two axes through the origin and both diagonals) x {mdft, czt}: unshifted single source -> slope per axis + full complex field; origin + source pair through the Wavefront method -> '
                   'complex field (unshifted) or modulus 2|cos| displaced by the shift.' + DT_RULE, reset=rs),
+        ScopeUnit('near_special_dx', nr_cases, run_near,
+                  f'requested-spacing alphabet next to special values: Q0 = (lam f/D)/dx in {[round(q, 4) for q in NEAR_Q]} and, in the SAME process state (shared executors not reset inside a case, exact Q0 first), '
+                  f'Q0 (1 +- delta) for delta in {NEAR_DELTAS} (inside every plausible is-close tolerance down to 6e-10, >= 1e3 x the rounding of Q); focus_fixed_sampling (function and Wavefront method, '
+                  f'tilts {NEAR_TILTS}) and unfocus_fixed_sampling (6 source positions), both methods, small shapes (square and non-square, where only one axis may be near a whole Q) with '
+                  'unit set / samples_out / shift rotating with the running index (thorough: every combination), and threshold shapes 64, 48x64 (thorough also 32, 64x48, 100; 4 source positions) with samples 2N+1 and '
+                  f'large tilts {NEAR_TILTS_LARGE} (18 waves off axis a 0.07 % error of Q is 0.03 sample); judged by the same closed form at the requested = reported coordinates; '
+                  'not closed over the tilt dimension for the threshold shapes', reset=rs),
+        ScopeUnit('fft_near_whole_Q', fq_cases, run_fft_focus,
+                  f'Wavefront.focus with Q in {QN} (next to a whole number, never equal) x N x 2 unit sets x all tilts: the closed form at the reported coordinates of whatever grid comes back', reset=rs),
+        ScopeUnit('unfocus_near_whole_Q', uq_cases, run_unfocus_fft,
+                  'the same Q alphabet through Wavefront.unfocus, every source position', reset=rs),
         HistoryUnit('size_history', size_inits(quick), s_fresh, s_events, s_apply, s_check, s_canon, 2 if quick else 3,
                     'BFS (depth 2 quick = every ordered pair, 3 thorough) on the SHARED czt / mdft executors without clear(): per initial state one fixed pair of spacings and a family of sizes whose '
                     'n_in + n_out - 1 share a fast FFT length (5->{9,10,8}, 9->{15,16}, 10->{28,29,31}; thorough also 48->{72,66,67,70}); events: fixed pupil -> every output count, every pupil size -> fixed output count, '
